@@ -78,7 +78,14 @@ class OrderedRingBuffer(Generic[FloatArray]):
 
         self._buffer: FloatArray = buffer
         self._sampling_period: timedelta = sampling_period
-        self._time_index_alignment: datetime = align_to
+        # Keep the alignment point in UTC: `datetime + timedelta` is wall-clock arithmetic
+        # in the datetime's own time zone, so with a zone that observes daylight saving
+        # the slot timestamps would be off by the DST offset across a clock change.
+        self._time_index_alignment: datetime = (
+            align_to.astimezone(timezone.utc)
+            if align_to.tzinfo is not None
+            else align_to
+        )
 
         self._gaps: list[Gap] = []
         self._timestamp_newest: datetime = self._TIMESTAMP_MIN
